@@ -246,8 +246,24 @@ def setup_parse_response(u):
     return f, [], {}, {"self": cl, "code": code, "W": W, "pos0": pos0, "lines": lines, "n": n, "list_mode": list_mode}
 
 
+def parse_response_locals(fn):
+    """logical names of the loop contracts of parse_response -> the locals of the real function (read from its AST):
+    `return <code>, <info>`;  `<curr_code>, <rest> = await self.parse_line()` inside the loop"""
+    import ast
+
+    rets = [n for n in ast.walk(fn) if isinstance(n, ast.Return) and isinstance(n.value, ast.Tuple) and len(n.value.elts) == 2 and all(isinstance(e, ast.Name) for e in n.value.elts)]
+    loops = [n for n in ast.walk(fn) if isinstance(n, ast.While)]
+    if len(rets) != 1 or len(loops) != 1:
+        raise KeyError("parse_response: expected `return <code>, <lines>` and one while loop")
+    inner = [n for n in ast.walk(loops[0]) if isinstance(n, ast.Assign) and isinstance(n.targets[0], ast.Tuple) and len(n.targets[0].elts) == 2 and all(isinstance(e, ast.Name) for e in n.targets[0].elts) and "parse_line" in ast.unparse(n.value)]
+    if len(inner) != 1:
+        raise KeyError("parse_response: expected one `<code>, <rest> = await self.parse_line()` in the loop")
+    return {"code": rets[0].value.elts[0].id, "info": rets[0].value.elts[1].id, "curr_code": inner[0].targets[0].elts[0].id, "rest": inner[0].targets[0].elts[1].id}
+
+
 c = contract(CLIENT, "BaseClient.parse_response", props=["C06"])
 c.setup = setup_parse_response
+c.alias_resolver = parse_response_locals
 c.opts = {"feas_timeout_ms": 400, "solve_budget_s": 400, "solve_par": 10}
 c.assumptions.append("T-str: rstrip(a ++ b) == (rstrip(a) if rstrip(b) == '' else a ++ rstrip(b)); rstrip('-') == '-'; rstrip(' ') == ''; rstrip(d) == d for digit strings; isdigit(s) implies the first and last characters of s are digits")
 c.uses = [(CLIENT, "BaseClient.parse_line#summary")]
@@ -398,6 +414,7 @@ def setup_parse_response_any(u):
 
 c = contract(CLIENT, "BaseClient.parse_response", props=["C06", "C19"], name="BaseClient.parse_response#any-stream")
 c.setup = setup_parse_response_any
+c.alias_resolver = parse_response_locals
 c.uses = [(CLIENT, "BaseClient.parse_line#summary-any")]
 c.raises_("ConnectionResetError")
 c.raises_("StatusCodeError")
